@@ -11,7 +11,7 @@ if [ -f $S/seed_demo.rs ]; then cp $S/seed_demo.rs tests/seed_demo.rs; demo=rs; 
 if [ -f $S/seed_demo.sh ]; then cp $S/seed_demo.sh seed_demo.sh; chmod +x seed_demo.sh; demo=sh; fi
 rundemo() {
   if [ $demo = rs ]; then cargo test --offline --test seed_demo >/tmp/confirm_$N.demo 2>&1; echo $?;
-  elif [ $demo = sh ]; then ./seed_demo.sh >/tmp/confirm_$N.demo 2>&1; echo $?; else echo na; fi
+  elif [ $demo = sh ]; then ./seed_demo.sh $W >/tmp/confirm_$N.demo 2>&1; echo $?; else echo na; fi
 }
 clean_demo=$(rundemo)
 git apply $S/patch.diff || { echo "$N: PATCH DOES NOT APPLY"; exit 2; }
